@@ -23,7 +23,7 @@
 (***************************************************************************)
 EXTENDS Naturals, Integers, Sequences, FiniteSets, TLC
 
-CONSTANT Deviation   \* "none", or a seeded model-level defect for the negative controls:
+CONSTANT Deviation   \* {} for the real code, or a set of seeded model-level defects (negative controls):
                      \*   "bool_as_int" (upstream bcoding: True -> i1e), "no_sort" (keys unsorted),
                      \*   "charlen" (length prefix counts characters, not bytes)
 
@@ -86,7 +86,7 @@ BigDigits(v) == (IF v[1] = 1 THEN <<Bminus>> ELSE <<>>) \o [j \in 1..(Len(v) - 1
 EncBuf(bs) == NatDigits(Len(bs)) \o <<Bcolon>> \o bs
 EncStr(s) == LET b == StrBytes(s) IN
              IF b = Err THEN Err
-             ELSE IF Deviation = "charlen" THEN NatDigits(Len(s)) \o <<Bcolon>> \o b
+             ELSE IF "charlen" \in Deviation THEN NatDigits(Len(s)) \o <<Bcolon>> \o b
              ELSE EncBuf(b)
 
 RECURSIVE LexLess(_, _)
@@ -119,9 +119,9 @@ Enc(x) ==
          LET body == EncSeq(x.v, 1) IN IF body = Err THEN Err ELSE <<Bl>> \o body \o <<Be>>
     [] x.k = "dict"  ->
          IF ~KeysOK(x.v) THEN Err
-         ELSE LET body == EncPairs(IF Deviation = "no_sort" THEN x.v ELSE SortPairs(x.v), 1)
+         ELSE LET body == EncPairs(IF "no_sort" \in Deviation THEN x.v ELSE SortPairs(x.v), 1)
               IN IF body = Err THEN Err ELSE <<Bd>> \o body \o <<Be>>
-    [] x.k = "bool" /\ Deviation = "bool_as_int" -> <<Bi>> \o ItoA(x.v) \o <<Be>>
+    [] x.k = "bool" /\ "bool_as_int" \in Deviation -> <<Bi>> \o ItoA(x.v) \o <<Be>>
     [] OTHER -> Err                     \* bool, None, float, ...: TypeError
 EncSeq(s, i) ==
   IF i > Len(s) THEN <<>>
